@@ -24,7 +24,8 @@ Funcs == << Fn("idb", <<P("Both", TBytes)>>, <<>>, TBytes), Fn("idi", <<P("Both"
             Fn("ab", <<P("Field", AB)>>, <<>>, TBool), Fn("aa", <<P("Field", AB)>>, <<>>, AB),
             Fn("both", <<P("Field", TBool), P("Field", TBool)>>, <<>>, TBool),
             Fn("concat", <<>>, <<>>, TBytes), Fn("ctxfn", <<>>, <<>>, TInt),
-            Fn("plen", <<P("Both", TBytes), P("Both", TBytes)>>, <<>>, TInt) >>       \* two arguments, result type differs from both
+            Fn("plen", <<P("Both", TBytes), P("Both", TBytes)>>, <<>>, TInt),         \* two arguments, result type differs from both
+            Fn("join3", <<P("Both", TBytes), P("Both", TBytes), P("Both", TBytes)>>, <<>>, TBytes) >>   \* three arguments: a cheap and an expensive one after a mapped one
 Sch == [fields |-> <<Fld("i", TInt), Fld("s", TBytes), Fld("b1", TBool), Fld("ai", AI), Fld("abytes", ABY), Fld("mbytes", TMap(TBytes)), Fld("vb", AB), Fld("ai2", AI)>>,
         funcs |-> Funcs, lists |-> <<TInt>>, listkinds |-> <<"set">>, nne |-> TRUE]
 I(n) == VInt(IntOfNat(n))
